@@ -1559,7 +1559,7 @@ BASE.update({'chan:make': chan_make, 'chan:recv': chan_recv, 'chan:close': chan_
 
 def ext_prefixes():
     ps = ['github.com/prometheus/', '(*github.com/prometheus/', '(github.com/prometheus/', 'gopkg.in/DataDog/', '(*gopkg.in/DataDog/', 'net/http.NewServeMux', '(*net/http.ServeMux).',
-          'net/http.Handle', 'opaque:ext.']
+          'net/http.Handle', 'net/http.TimeoutHandler', 'net/http.StripPrefix', 'net/http.HandlerFunc', 'net/http.MaxBytesHandler', 'opaque:ext.']
     return [(p, ext_any) for p in ps]
 
 
